@@ -16,7 +16,7 @@ func init() {
 	reg(PropCfg{ID: "C01", Pkg: "c01", Level: "translation_validation",
 		Rule: "programs drawn from the typed model grammar (hs/gen), each compiled and run on the VM and compared with the reference semantics (hs/eval.go): host writes, trigger registrations, outcome class, fatal kind, uncaught-throw message; non-trivial = reference trace executes >= 8 steps and produces output or a non-ok outcome; distinct by program text",
 		Jobs: []Job{
-			{Name: "program", Run: "^TestProgram$", Checks: [2]int{500, 6000}, Shards: [2]int{6, 16}},
+			{Name: "program", Run: "^TestProgram$", Checks: [2]int{1500, 8000}, Shards: [2]int{8, 16}},
 			{Name: "tables", Run: "^TestTable", Shards: [2]int{4, 8}},
 		}})
 }
@@ -25,7 +25,7 @@ func init() {
 	reg(PropCfg{ID: "C04", Pkg: "c04", Level: "translation_validation",
 		Rule: "programs of the language fragment both backends implement (typed model grammar without trigger statements, spawn and capturing closures; unicode strings included), each run by the tree-walking interpreter and compiled+run on the VM: host writes and outcome class (ok / uncaught throw + message / fatal kind by name) must agree; non-trivial = program executes >= 8 reference steps with output or a non-ok outcome, or leaves the modelled fragment; distinct by program text",
 		Jobs: []Job{
-			{Name: "diff", Run: "^TestDiff$", Checks: [2]int{500, 8000}, Shards: [2]int{6, 16}},
+			{Name: "diff", Run: "^TestDiff$", Checks: [2]int{1500, 10000}, Shards: [2]int{8, 16}},
 		}})
 }
 
@@ -43,7 +43,7 @@ func init() {
 	reg(PropCfg{ID: "C02", Pkg: "c02", Level: "exploration",
 		Rule: "analyzer-accepted programs from the wild generator (typed model grammar plus hostile operands: zero divisors, negative/huge shift counts and exponents, float ** and / 0, unwrap/expect of none, unicode indexing, out-of-range indices) x backend in {VM, interpreter} x CoreLimits drawn from {1..8,16,64,500,10000}^3 (40% of cases); validity predicate: the sandbox worker answers with outcome in {ok, exception, fatal, terminated}, never dies (Go panic / fatal error), never hangs (double-checked budget), typed host functions only receive conforming values; non-trivial = accepted program containing >= 1 hostile construct; distinct by program text + limits",
 		Jobs: []Job{
-			{Name: "robust", Run: "^TestRobust$", Checks: [2]int{400, 8000}, Shards: [2]int{6, 16}},
+			{Name: "robust", Run: "^TestRobust$", Checks: [2]int{1200, 10000}, Shards: [2]int{8, 16}},
 		}})
 }
 
@@ -69,7 +69,7 @@ func init() {
 	reg(PropCfg{ID: "C16", Pkg: "c16", Level: "exploration",
 		Rule: "model-based histories: a generated program (functions over scalars, lists, objects, options; global counters/lists; returns from loops/try/match; throwing and fatally failing functions) and a history of 1-10 host invocations (function, argument values; SpawnSync or SpawnAsync+Wait+HandleTermination) on ONE VM; the reference semantics with a persistent global environment gives per call the expected outcome, output and return value; after every completed call the residue is checked (no cores, lock free, finished core: empty call stack/handler stack, at most the return value on the operand stack, memory pointer 0); after a failed call every later call must fail rather than block; non-trivial = history of >= 3 calls over >= 2 functions, or a failing call followed by another call; distinct by program + history",
 		Jobs: []Job{
-			{Name: "history", Run: "^TestHistory$", Checks: [2]int{300, 4000}, Shards: [2]int{6, 16}},
+			{Name: "history", Run: "^TestHistory$", Checks: [2]int{800, 5000}, Shards: [2]int{8, 16}},
 		}})
 }
 
@@ -78,7 +78,7 @@ func init() {
 		Rule: "owned cancel schedule: the harness context's Done() is the poll; for each program (endless loops, counting/printing loops, calls, deep recursion, throw/catch cycles, code inside handlers, sleeps, 1-6 spawned cores) and backend a dry run counts K polls, then cancellation is made visible at the k-th poll for EVERY k <= K when K <= 120 (quick) / 400 (thorough) and for a stratified sample otherwise, plus generated loop programs with random k; oracle: the wait returns (double-checked budget), outcome is a termination interrupt iff the k-th poll happened, polls/writes after the cancelling poll are bounded by the number of live cores, no cores/goroutines are left and the cores lock is free; non-trivial = 1 < k < K; distinct by (program, backend, k)",
 		Jobs: []Job{
 			{Name: "sweep", Run: "^TestTableSweep$", Shards: [2]int{8, 16}},
-			{Name: "random", Run: "^TestRandomPrograms$", Checks: [2]int{150, 3000}, Shards: [2]int{4, 16}},
+			{Name: "random", Run: "^TestRandomPrograms$", Checks: [2]int{400, 3000}, Shards: [2]int{6, 16}},
 		}})
 }
 
@@ -96,7 +96,7 @@ func init() {
 		Rule: "generated programs spawning 1-8 cores; every thread prints unique whole lines built from its spawn arguments (which the spawner overwrites right after the spawn), increments a shared global, pushes to a shared list, reads a read-only global; variants where one thread fails fatally and where main finishes first; each program runs several times in a -race build of the worker with GOMAXPROCS in {1,2,4,16} and optional yields in host callbacks; oracle: output multiset equals the expected multiset of whole lines, nothing arrives after the wait returned, a failing thread's interrupt is the one reported and no core/goroutine survives it, the race detector stays silent (GORACE=halt_on_error: a report kills the worker and is read from its stderr); interleavings are SAMPLED, not enumerated; non-trivial = >= 2 threads; distinct by program text + scheduler setting",
 		Assumptions: []string{"the Go race detector reports only races that occur in the sampled executions"},
 		Jobs: []Job{
-			{Name: "threads", Run: "^TestThreads$", Checks: [2]int{60, 1200}, Shards: [2]int{8, 16}, Race: true, Env: []string{"GORACE=halt_on_error=1"}},
+			{Name: "threads", Run: "^TestThreads$", Checks: [2]int{120, 1200}, Shards: [2]int{8, 16}, Race: true, Env: []string{"GORACE=halt_on_error=1"}},
 		}})
 }
 
@@ -105,8 +105,8 @@ func init() {
 		Rule: "rule x context table: 51 statement-level rules (operand/argument/assignment/condition/branch/iterator mismatches, arity, unknown identifier/type/member, break/continue outside loops, implicit any, ...) each instantiated as a well-typed snippet and its single-fault ill-typed twin inside 15 syntactic contexts (function body, nested block, if/else, loops, lambda body, lambda in loop, match arms, try/catch, after a closure literal, value block) plus 41 whole-program rules (return types, duplicates, non-constant global, main shape, singletons, triggers, impl blocks vs template, imports): the good twin must get no error-level diagnostic, the bad twin at least one; random accept direction: generated well-typed programs must be accepted and the analyzer's recorded type of every top-level let equals the generator's type; random reject direction: single-fault mutants of generated programs (every fault site of the base in the thorough tier: operand, argument, arity, condition, iterator, index, list element, branch, annotated let) must be rejected; non-trivial = every ill-typed twin (differs from an accepted base at exactly one site) and generated programs with >= 3 type kinds; distinct by (rule, context) / program text",
 		Jobs: []Job{
 			{Name: "rules", Run: "^TestTableRules$", Shards: [2]int{4, 8}},
-			{Name: "accept", Run: "^TestAcceptGenerated$", Checks: [2]int{1500, 20000}, Shards: [2]int{4, 16}},
-			{Name: "mutants", Run: "^TestRejectMutants$", Checks: [2]int{400, 2000}, Shards: [2]int{4, 16}},
+			{Name: "accept", Run: "^TestAcceptGenerated$", Checks: [2]int{3000, 20000}, Shards: [2]int{6, 16}},
+			{Name: "mutants", Run: "^TestRejectMutants$", Checks: [2]int{1000, 3000}, Shards: [2]int{6, 16}},
 		}})
 }
 
@@ -115,12 +115,12 @@ func init() {
 		Rule: "typed value generators (nested lists/objects/any-objects/options/ranges/scalars, depth <= 3 quick / 4 thorough, unicode strings, empty containers, finite floats) producing correlated pairs/triples (copy, single-difference mutant, permuted key order); oracles: IsEqual reflexive/symmetric/transitive and equal to the model's structural equality in both value libraries; Clone equal and state-disjoint under 1-12 step mutation histories checked against two independent model values (VM library; interpreter values have no Clone); TypeAwareUnmarshal(Marshal(v)) == v and the in-program to_json/parse_json round trip on both backends; both libraries display equal values as the same text; exhaustive small table of 416 near-equal pairs; non-trivial = type depth >= 2 or >= 2 elements; distinct by value content",
 		Jobs: []Job{
 			{Name: "table", Run: "^TestTableSmall$", Shards: [2]int{1, 2}},
-			{Name: "eq", Run: "^TestEq$", Checks: [2]int{10000, 300000}, Shards: [2]int{2, 8}},
-			{Name: "clone", Run: "^TestClone$", Checks: [2]int{10000, 200000}, Shards: [2]int{2, 8}},
-			{Name: "json", Run: "^TestJSON$", Checks: [2]int{10000, 300000}, Shards: [2]int{2, 8}},
-			{Name: "display", Run: "^TestDisplay$", Checks: [2]int{10000, 200000}, Shards: [2]int{2, 8}},
-			{Name: "jsonprog", Run: "^TestJSONProg$", Checks: [2]int{150, 1500}, Shards: [2]int{4, 8}},
-			{Name: "eqprog", Run: "^TestEqProg$", Checks: [2]int{150, 1500}, Shards: [2]int{4, 8}},
+			{Name: "eq", Run: "^TestEq$", Checks: [2]int{30000, 300000}, Shards: [2]int{2, 8}},
+			{Name: "clone", Run: "^TestClone$", Checks: [2]int{30000, 200000}, Shards: [2]int{2, 8}},
+			{Name: "json", Run: "^TestJSON$", Checks: [2]int{30000, 300000}, Shards: [2]int{2, 8}},
+			{Name: "display", Run: "^TestDisplay$", Checks: [2]int{30000, 200000}, Shards: [2]int{2, 8}},
+			{Name: "jsonprog", Run: "^TestJSONProg$", Checks: [2]int{500, 2500}, Shards: [2]int{4, 8}},
+			{Name: "eqprog", Run: "^TestEqProg$", Checks: [2]int{500, 2500}, Shards: [2]int{4, 8}},
 		}})
 }
 
@@ -129,7 +129,7 @@ func init() {
 		Rule: "metamorphic relation 'repetition': the same sources are analysed, compiled and run R times (quick 6-12, thorough 24-60) inside one worker process and twice more in a second process with a different GOMAXPROCS (1/2/16): the multiset of diagnostics (level, message, span), the output and the outcome of both backends must be identical in every repetition; inputs: generated programs (objects with several fields printed/compared, lambdas, many locals) and hand-built order-sensitive programs (4 modules with overlapping names, objects rendered/serialised/iterated, diagnostics in several modules); a dependence on the order of a map with m keys at a single site is missed by R repetitions with probability about (1/m!)^(R-1); non-trivial = object literal, >= 2 lambdas or >= 2 functions / every fixed program; distinct by program text",
 		Jobs: []Job{
 			{Name: "fixed", Run: "^TestTableFixed$", Shards: [2]int{4, 4}},
-			{Name: "generated", Run: "^TestRepeatGenerated$", Checks: [2]int{120, 1500}, Shards: [2]int{6, 16}},
+			{Name: "generated", Run: "^TestRepeatGenerated$", Checks: [2]int{200, 1500}, Shards: [2]int{8, 16}},
 		}})
 }
 
@@ -148,10 +148,10 @@ func init() {
 		Rule: "(value, target type) pairs over nested lists/objects/any-objects/options/scalars (depth <= 3 quick / 4 thorough): conforming by construction, conforming after a permitted scalar conversion, and near misses at a generator-known path (wrong leaf kind, missing/extra field, wrong element, none/null where not allowed, list where object ...); three delivery routes: (api) DeepCast in both value libraries with allowCasts true/false, (json) TypeAwareUnmarshalValue, (prog) the value arrives as 'any' from a host function or parse_json and crosses 'as T' / an annotated let inside try/catch followed by typed uses of every leaf, on both backends, (host) SpawnSync with conforming / non-conforming arguments and declared return types; own oracle predicates (convertible / conforms) written from the property; exhaustive near-miss table of 20 types x 16 near-miss kinds; non-trivial = type depth >= 2 or a near miss at depth >= 1; distinct by value + type + route",
 		Jobs: []Job{
 			{Name: "table", Run: "^TestTableNearMiss$", Shards: [2]int{2, 4}},
-			{Name: "api", Run: "^TestAPI$", Checks: [2]int{10000, 200000}, Shards: [2]int{2, 8}},
-			{Name: "json", Run: "^TestJSON$", Checks: [2]int{5000, 100000}, Shards: [2]int{2, 8}},
-			{Name: "prog", Run: "^TestProg$", Checks: [2]int{150, 2000}, Shards: [2]int{6, 16}},
-			{Name: "host", Run: "^TestHost$", Checks: [2]int{100, 1000}, Shards: [2]int{4, 8}},
+			{Name: "api", Run: "^TestAPI$", Checks: [2]int{40000, 200000}, Shards: [2]int{2, 8}},
+			{Name: "json", Run: "^TestJSON$", Checks: [2]int{20000, 100000}, Shards: [2]int{2, 8}},
+			{Name: "prog", Run: "^TestProg$", Checks: [2]int{600, 3000}, Shards: [2]int{6, 16}},
+			{Name: "host", Run: "^TestHost$", Checks: [2]int{400, 2000}, Shards: [2]int{4, 8}},
 		}})
 }
 
@@ -169,7 +169,7 @@ func init() {
 		Jobs: []Job{
 			{Name: "culprits", Run: "^TestTableCulprits$", Shards: [2]int{2, 4}},
 			{Name: "runtime", Run: "^TestTableRuntime$", Shards: [2]int{4, 8}},
-			{Name: "damaged", Run: "^TestDamagedPrograms$", Checks: [2]int{2500, 40000}, Shards: [2]int{6, 16}},
+			{Name: "damaged", Run: "^TestDamagedPrograms$", Checks: [2]int{5000, 40000}, Shards: [2]int{8, 16}},
 		}})
 }
 
@@ -178,6 +178,7 @@ func init() {
 		Rule: "validity predicate 'the call returns': every input is lexed to EOF/first error and parsed in-process (recover + watchdog, a hang is re-run before it counts) and analysed in the sandbox worker as entry module (main required / not required) and, for a drawn subset of 10 module variants, as the text a host returns for an imported module (named/plain/kind imports, module importing the entry, importing itself, 2-cycles between non-entry modules, host error, module not found, import chains and diamonds); inputs: arbitrary and hostile byte strings up to 64 KiB, token soup over the whole token alphabet, untyped grammar-shaped programs, 1-3 token mutants of generated/shipped programs, EVERY prefix of programs <= 2 KiB (token ends + every 5th rune beyond), every single-token delete/duplicate/swap/replace, 30+ nesting generators at depth 1..1000 and 64 KiB single lexemes; no panic, no fatal error, no hang; problems only in returned errors/diagnostics; non-trivial = >= 5 tokens before the first hard error; distinct by text + variant",
 		Jobs: []Job{
 			{Name: "probes", Run: "^TestProbes$", Shards: [2]int{2, 4}},
+			{Name: "pairs", Run: "^TestTableTypePairs$", Shards: [2]int{8, 8}},
 			{Name: "depth", Run: "^TestDepth$", Shards: [2]int{4, 8}},
 			{Name: "prefixes", Run: "^TestPrefixes$", Shards: [2]int{4, 16}},
 			{Name: "edits", Run: "^TestTokenEdits$", Shards: [2]int{4, 16}},
@@ -194,13 +195,13 @@ func init() {
 		Jobs: []Job{
 			{Name: "forms", Run: "^TestTableForms$", Shards: [2]int{4, 8}},
 			{Name: "shipped", Run: "^TestTableShipped$", Shards: [2]int{4, 8}},
-			{Name: "parsed", Run: "^TestParsedRoundTrip$", Checks: [2]int{250, 5000}, Shards: [2]int{4, 16}},
-			{Name: "analyzed", Run: "^TestAnalyzedRoundTrip$", Checks: [2]int{250, 5000}, Shards: [2]int{4, 16}},
-			{Name: "optimizer", Run: "^TestOptimizer$", Checks: [2]int{250, 5000}, Shards: [2]int{4, 16}},
-			{Name: "strings", Run: "^TestStringLiterals$", Checks: [2]int{200, 4000}, Shards: [2]int{2, 8}},
-			{Name: "floats", Run: "^TestFloatLiterals$", Checks: [2]int{200, 4000}, Shards: [2]int{2, 8}},
-			{Name: "mixed", Run: "^TestMixedForms$", Checks: [2]int{200, 4000}, Shards: [2]int{2, 8}},
-			{Name: "trees", Run: "^TestTreeShape$", Checks: [2]int{300, 6000}, Shards: [2]int{2, 8}},
+			{Name: "parsed", Run: "^TestParsedRoundTrip$", Checks: [2]int{600, 5000}, Shards: [2]int{4, 16}},
+			{Name: "analyzed", Run: "^TestAnalyzedRoundTrip$", Checks: [2]int{600, 5000}, Shards: [2]int{4, 16}},
+			{Name: "optimizer", Run: "^TestOptimizer$", Checks: [2]int{600, 5000}, Shards: [2]int{4, 16}},
+			{Name: "strings", Run: "^TestStringLiterals$", Checks: [2]int{500, 4000}, Shards: [2]int{2, 8}},
+			{Name: "floats", Run: "^TestFloatLiterals$", Checks: [2]int{500, 4000}, Shards: [2]int{2, 8}},
+			{Name: "mixed", Run: "^TestMixedForms$", Checks: [2]int{500, 4000}, Shards: [2]int{2, 8}},
+			{Name: "trees", Run: "^TestTreeShape$", Checks: [2]int{800, 6000}, Shards: [2]int{2, 8}},
 		}})
 }
 
@@ -209,6 +210,6 @@ func init() {
 		Rule: "metamorphic: (program, seed, passes) with programs from the property's class (generated with pure operands, small non-negative multiplication operands and small numeric literals; the shipped examples the analyzer accepts) x seeds over int64 incl. 0, +-1, extremes x passes 1-4: every variant the transformer returns must print to a text the analyzer accepts and must write the same output with the same outcome on the VM as the original; a transformer panic is a failure; non-trivial = variant text differs from the original; distinct by program + seed + passes",
 		Jobs: []Job{
 			{Name: "examples", Run: "^TestTableExamples$", Shards: [2]int{6, 8}},
-			{Name: "generated", Run: "^TestGenerated$", Checks: [2]int{200, 4000}, Shards: [2]int{6, 16}},
+			{Name: "generated", Run: "^TestGenerated$", Checks: [2]int{500, 4000}, Shards: [2]int{8, 16}},
 		}})
 }
